@@ -56,6 +56,9 @@ func (P *Program) discharge(obls []*Obligation, dir string, timeoutMs int, all b
 	return results
 }
 
+// fastMode: single solver (z3-new), used by the frame inference where thousands of small queries are sent.
+var fastMode = false
+
 func (P *Program) dischargeOne(o *Obligation, dir string, timeoutMs int, all bool) oblResult {
 	if !o.Cover && (o.Cond == "true") {
 		return oblResult{Obl: o, OK: true, Res: solverResult{Verdict: "unsat", Solver: "trivial"}}
@@ -75,12 +78,20 @@ func (P *Program) dischargeOne(o *Obligation, dir string, timeoutMs int, all boo
 	// fast path: without any quantified assumption (sound; most safety obligations need none)
 	if !strings.Contains(o.Cond, "(forall ") && !strings.Contains(o.Cond, "(exists ") {
 		lq := P.queryForOpt(o, false, true)
-		if r := runQuery(dir, o.Name+".lite", lq, 1500, false, []string{"z3-new", "z3"}); r.Verdict == "unsat" {
+		liteSolvers := []string{"z3-new", "z3"}
+		if fastMode {
+			liteSolvers = []string{"z3-new"}
+		}
+		if r := runQuery(dir, o.Name+".lite", lq, 1500, false, liteSolvers); r.Verdict == "unsat" {
 			r.Solver += "(lite)"
 			return oblResult{Obl: o, Res: r, OK: true}
 		}
 	}
-	r := runQuery(dir, o.Name, q, timeoutMs, all, nil)
+	var only []string
+	if fastMode {
+		only = []string{"z3-new"}
+	}
+	r := runQuery(dir, o.Name, q, timeoutMs, all, only)
 	return oblResult{Obl: o, Res: r, OK: r.Verdict == "unsat"}
 }
 
